@@ -164,7 +164,7 @@ def rdec (given : Option Name) (force : Bool) (n : Nat) (chunks : List (List Nat
   match run (.waiting given force []) (chunks.take n) with
   | none => "RAISE | -"
   | some r1 =>
-    encCps r1.2 ++ " | " ++ (match run (r1.1.reset force) (chunks.drop n) with | none => "RAISE" | some r2 => encCps r2.2)
+    encCps r1.2 ++ " | " ++ (match run (r1.1.reset given force) (chunks.drop n) with | none => "RAISE" | some r2 => encCps r2.2)
 
 def renc (given : Option Name) (n : Nat) (chunks : List (List Nat)) : String :=
   let run (s : ESt) (cs : List (List Nat)) : Option (ESt × List Nat) :=
@@ -176,7 +176,7 @@ def renc (given : Option Name) (n : Nat) (chunks : List (List Nat)) : String :=
   match run (.waiting given []) (chunks.take n) with
   | none => "RAISE | -"
   | some r1 =>
-    encCps r1.2 ++ " | " ++ (match run r1.1.reset (chunks.drop n) with | none => "RAISE" | some r2 => encCps r2.2)
+    encCps r1.2 ++ " | " ++ (match run (r1.1.reset given) (chunks.drop n) with | none => "RAISE" | some r2 => encCps r2.2)
 
 def handle (line : String) : String :=
   match words line with
